@@ -167,7 +167,8 @@ def shard_a(sh):
 B1 = Schema('B1', [Opt('int', 'i', 'A', 5), Opt('int', 'il', 'L', [b'1', b'2']), Opt('str', 's', '', b'd'),      # A: the declaration carries an annotation
                    Opt('sec', 'mt', 'MT', sub=[Opt('int', 'x', '', 1)]), Opt('sec', 'kv', 'K', sub=[Opt('str', 'k0', '', b'v0')]),
                    Opt('sec', 'm', 'M', sub=[Opt('int', 'x', 'A', 1), Opt('str', 'y', '', b'yy'), Opt('int', 'xl', 'L', [b'1'])]),
-                   Opt('sec', 'km', 'KM', sub=[Opt('str', 'k0', '', b'v0')])])
+                   Opt('sec', 'km', 'KM', sub=[Opt('str', 'k0', '', b'v0')]),
+                   Opt('sec', 'mu', 'MTU', sub=[Opt('int', 'x', '', 1), Opt('int', 'xl', 'L', [b'1'])])])      # titles must be unique: a second one is refused
 
 
 def ctx_ops(c):
@@ -187,6 +188,7 @@ def ctx_ops(c):
         ['set_pf_name %s %s 1' % (c, enc(b's'))],
         ['cb_fail 1', 'parse_buf %s %s' % (c, enc(b'il += {9} s = "abc'))],     # a text refused inside a string: whatever it leaves behind is not the other context's business
         ['cb_fail 1', 'parse_buf %s %s' % (c, enc(b'i = 8 /* abc'))],
+        ['cb_fail 1', 'parse_buf %s %s' % (c, enc(b'mu a { x = 2 } mu a { }'))],        # an instance that is built and then refused (the title exists)
         ['cb_fail 1', 'parse_buf %s %s' % (c, enc(b'm { }')), 'set_pf_name %s %s 1' % (c, enc(b'm|x')), 'set_vf %s %s 1' % (c, enc(b'm|y'))],
     ]
 
@@ -236,10 +238,11 @@ def shard_b(sh):
     drv.define_schema('B1', B1.spec())
     st = ShardStats('interleavings (%s)' % mode)
     if mode == 'contexts':
-        setup = ['init A B1 0', 'init B B1 0']
+        # both contexts have a search path of their own: every section instance borrows its context's list
+        setup = ['init A B1 0', 'init B B1 0', 'addpath A ' + enc(b'/nonexistent/a'), 'addpath B ' + enc(b'/nonexistent/b')]
         menus = (ctx_ops('A'), ctx_ops('B'))
         obs = (observe('A', 'ctx'), observe('B', 'ctx'))
-        solo_setup = (['init A B1 0'], ['init B B1 0'])
+        solo_setup = (['init A B1 0', 'addpath A ' + enc(b'/nonexistent/a')], ['init B B1 0', 'addpath B ' + enc(b'/nonexistent/b')])
     else:
         setup = ['init A B1 0', 'parse_buf A ' + enc(b'm { } m { } km { } km { }')]
         menus = (inst_ops('A', 0), inst_ops('A', 1))
